@@ -39,7 +39,7 @@ UNITS = {
 }
 
 UNITS['U02'] = dict(
-    kind='verus', tpl='contracts/U02_column_buffer.vx', fallback='U02b',
+    kind='verus', tpl='contracts/U02_column_buffer.vx', fallback='U02w',
     title='mem_store/column_buffer.rs: ColumnBuffer::{null,len,push_val,push_ints,push_floats,push_strings,push_nulls,push_present,init_present}, IntColBuffer::{default,push}, FloatColBuffer::push, MixedColBuffer::push; ingest/buffer.rs: per-column bodies of Buffer::push_typed_cols and Buffer::extend_to_largest (slices)',
     assumptions=['R8: iterator parameters (impl IntoIterator) monomorphised to slices; all call sites pass arrays, Vecs or slice iterators',
                  'R9 shims (external_body, assumed length specs): StringColBuffer (opaque; its string packing is U03), '
@@ -190,6 +190,13 @@ UNITS['U20k'] = dict(
     + [dict(name='proofs::vx_canary', expect_fail=True)],
     assumptions=[], not_covered=['narrowing casts (`as u8` ...) and Val -> integer casts (panic arms)', 'i64 -> f64 rounding for |v| > 2^53 is inherent to the documented degrade'])
 
+UNITS['U02w'] = dict(
+    kind='native', crate='kani/U02b', bin='vx_u02b', needs_lock=True, timeout_s=900,
+    pool='ColumnBuffer::null(n0) followed by two operations from a pool of push_nulls / push_ints shapes with lengths 0,1,2,3,7,8,9,15,16,17 and five null maps',
+    title='WITNESS SEARCH for U02 (not a proof): the real ColumnBuffer null-map code compiled natively and driven over a pool of small shapes against a row model',
+    assumptions=['used only to find a concrete failing input when U02 loses an anchor or fails; exhausting the pool decides nothing'],
+    not_covered=[])
+
 UNITS['U02b'] = dict(
     kind='kani', crate='kani/U02b', needs_lock=True, timeout_s=900, mem_gb=10, jobs=7,
     title='BOUNDED fallback for U02: real ColumnBuffer::{null,push_ints,push_nulls,push_present,init_present} on fixed-shape scenarios around the bitmap byte boundary (all values and null maps symbolic) against a row model',
@@ -197,6 +204,84 @@ UNITS['U02b'] = dict(
     + [dict(name='proofs::vx_canary', expect_fail=True)],
     assumptions=['shims: StringColBuffer and RawVal reduced to stand-ins (only stored, never inspected by the null-map code)'],
     not_covered=['push_floats / push_strings / finalize', 'shapes other than the seven listed'])
+
+UNITS['U15k'] = dict(
+    kind='kani', crate='kani/U15', timeout_s=1500, mem_gb=16,
+    title='BOUNDED (length <= 4, all i64 values): api.rs integer layouts - determine_delta_compressability, selection conditions (slices), delta_encode / double_delta_encode, decode loops (slices)',
+    harnesses=[dict(name='proofs::layouts_len%d' % n, solver='cadical', bounded='sequence length %d, unwind %d' % (n, 7 if n == 4 else 6), unwind=(7 if n == 4 else 6), clause='decode_layout(encode_layout(xs)) == xs for the layout the server selects; no overflow, no unwrap failure', fn='api.rs integer layouts') for n in (2, 3, 4)]
+    + [dict(name='proofs::vx_canary', expect_fail=True)],
+    assumptions=['slice: the order of the seven-way if-chain is restated in the harness; each condition is the extracted expression',
+                 'R9: capnp list builders/readers replaced by Vec<T> (A-capnp: the transport carries the lists unchanged)'],
+    not_covered=['capnp encode/decode', 'sequences longer than 4 (the loops are uniform; unbounded proof pending)'])
+
+UNITS['U16k'] = dict(
+    kind='kani', crate='kani/U16', needs_lock=True, timeout_s=1200,
+    title='xor_float/double.rs: encode/decode loop bodies, prologues and mask (slices) - induction base and step (complete: all states satisfying Inv, all 2^64 next values, all mantissa settings)',
+    harnesses=[dict(name='proofs::base', clause='prologues establish Inv; mask keeps sign/exponent/m mantissa bits', fn='encode/decode prologue'),
+               dict(name='proofs::step', clause='enc_body; dec_body: all bits consumed, value equal under mask, Inv re-established, no panic', fn='encode/decode loop bodies'),
+               dict(name='proofs::vx_canary', expect_fail=True)],
+    assumptions=['A-bitbuffer: BitWriteStream/BitReadStream (LittleEndian) modelled as a bit FIFO (shim in kani/U16/src/lib.rs)',
+                 'A-ind-scheme: base + step + equal trip counts of the two loops (structure of the loop headers, not re-checked by a verifier) give the round trip for every length',
+                 'max_regret <= u32::MAX - 64 (the only caller passes 100)'],
+    not_covered=['decode of arbitrary / malformed byte streams', 'single.rs (f32 variant)', 'verbose_encode'])
+
+UNITS['U17k'] = dict(
+    kind='kani', crate='kani/U17', needs_lock=True, timeout_s=1200, mem_gb=12, jobs=1,
+    title='BOUNDED (3 rows): real crate locustdb-serialization, event_buffer::ColumnBuffer::push - dense/sparse/int/float representations denote the rows that were pushed',
+    harnesses=[dict(name='proofs::push_rows', bounded='3 rows, values NULL / any i64 / any f64, unwind 6', unwind=6, clause='den(representation, row) == value pushed at that row (ints promoted to float when a float arrives), NULL elsewhere', fn='event_buffer::ColumnBuffer::push'),
+               dict(name='proofs::vx_canary', expect_fail=True)],
+    assumptions=['whole crate compiled unmodified (capnp dependency included but not exercised)'],
+    not_covered=['string / mixed values', 'EventBuffer::serialize / deserialize (capnp)', 'TableBuffer::push_row_and_timestamp (HashMap, system time)'])
+
+UNITS['U18k'] = dict(
+    kind='kani', crate='kani/U18',
+    title='meta_store.rs WAL cursor primitives, Storage::recover per-segment classification (slice), InnerLocustDB::new replay contiguity (slice) (complete)',
+    harnesses=[dict(name='proofs::cursor_primitives', clause='add_wal_segment returns old next and increments; unflushed = cursor..next; register keeps next > id', fn='MetaStore cursor fns'),
+               dict(name='proofs::recover_classification', unwind=3, clause='replayed iff id >= cursor; deleted iff id < cursor and not read-only; replayed ids registered', fn='Storage::recover[slice]'),
+               dict(name='proofs::replay_contiguity', clause='after replaying id the expected next id is id + 1', fn='InnerLocustDB::new[slice]'),
+               dict(name='proofs::vx_canary', expect_fail=True)],
+    assumptions=['reduced struct MetaStore { next_wal_id, earliest_unflushed_wal_id } (partitions dropped)', 'A-wal-ids: fewer than 2^64 - 1 WAL segments',
+                 'shims: Writer (records deletes), PathId, WalSegment { id }, log::info! (dropped)'],
+    not_covered=['history composition: write-ahead-before-ack, order of persist / advance / delete in wal_flush, catalogue serialisation (capnp)'])
+
+UNITS['U04k'] = dict(
+    kind='kani', crate='kani/U04',
+    title='integers.rs: IntegerColumn::new_boxed interval computation and width/offset choice (slice) for every (min, max) (complete)',
+    harnesses=[dict(name='proofs::width_offset_choice', unwind=6, clause='chosen width/offset holds [min - offset, max - offset]; no overflow computing the interval', fn='IntegerColumn::new_boxed[slice]'),
+               dict(name='proofs::vx_canary', expect_fail=True)],
+    assumptions=['shims: Column::new / IntegerColumn::create_col / DataSection record the choice instead of building a column'],
+    not_covered=['lz4_or_pco_encode (A-lz4, A-pco)'])
+
+UNITS['U14k'] = dict(
+    kind='kani', crate='kani/U14', timeout_s=900, mem_gb=10, jobs=1,
+    title='BOUNDED (payload <= 2 bytes): disk_store/file_writer.rs compiled as is; VersionedChecksummedBlobWriter::{store,load} over an in-memory inner writer, digest replaced by a stand-in crate',
+    path_includes=['src/disk_store/file_writer.rs'],
+    harnesses=[dict(name='proofs::store_load_roundtrip', bounded='payload of 2 bytes, unwind 35', unwind=35, clause='load(store(d)) == d', fn='VersionedChecksummedBlobWriter::store/load'),
+               dict(name='proofs::load_len47_rejected', bounded='every 47-byte file, unwind 35', unwind=35, clause='shorter than the header ==> Err', fn='VersionedChecksummedBlobWriter::load'),
+               dict(name='proofs::load_len49', bounded='every 49-byte file, unwind 35', unwind=35, clause='Ok(p) ==> version 0, length field == |p|, payload bytes == p, file stays accepted', fn='VersionedChecksummedBlobWriter::load'),
+               dict(name='proofs::vx_canary', expect_fail=True)],
+    assumptions=['A-sha: the sha2 crate is replaced by a stand-in crate with the same API (kani/U14/sha2_shim); no property of SHA-256 is used or proved',
+                 'format! on error paths stubbed (message text irrelevant)'],
+    not_covered=['FileBlobWriter (file system)', 'Cap\'n Proto encode/decode of segments and catalogue (A-capnp)'])
+
+UNITS['U21k'] = dict(
+    kind='kani', crate='kani/U21', timeout_s=900, mem_gb=20, jobs=2,
+    title='BOUNDED (literals <= 4 chars): parser.rs get_limit / get_offset numeric-literal conversion (expression slices)',
+    harnesses=[dict(name='proofs::limit_never_panics', bounded='literal <= 4 chars over 0-9 . e -, unwind 6', unwind=6, extra=['-Z', 'stubbing'], clause='Ok iff unsigned integer literal; otherwise an error value; no panic', fn='parser::get_limit[slice]'),
+               dict(name='proofs::offset_never_panics', bounded='literal <= 4 chars over 0-9 . e -, unwind 6', unwind=6, extra=['-Z', 'stubbing'], clause='Ok iff unsigned integer literal; otherwise an error value; no panic', fn='parser::get_offset[slice]'),
+               dict(name='proofs::vx_canary', expect_fail=True)],
+    assumptions=['slice: only the conversion arm; the sqlparser AST match around it is dropped', 'literals longer than 4 characters (e.g. beyond u64) are not generated: parse::<u64> overflow path covered only by reading'],
+    not_covered=['sqlparser', 'convert_to_native_expr', 'get_raw_val'])
+
+UNITS['U06k'] = dict(
+    kind='kani', crate='kani/U06', needs_lock=True, timeout_s=900,
+    title='BOUNDED: InverseDictLookup::execute (R6) + real comparison kernels on dictionary indices: string comparisons against constants present in / absent from a sorted dictionary (3 entries <= 1 byte)',
+    path_includes=['src/engine/operators/comparison_operators.rs'],
+    harnesses=[dict(name='proofs::str_%s' % r, bounded='3 dictionary entries and constant of <= 1 ASCII byte, unwind 5', unwind=5, clause='d[i] %s c == perform(i, inverse_dict_lookup(d, c))' % sym, fn='InverseDictLookup::execute + comparison kernel') for r, sym in (('eq', '='), ('ne', '<>'), ('lt', '<'), ('le', '<='), ('gt', '>'), ('ge', '>='))] + [
+               dict(name='proofs::vx_canary', expect_fail=True)],
+    assumptions=['registry scan (syntactic, //@scan): an operator is obliged to commute with the constant translation only if FUNCTION2_REGISTRY routes its (String, String) signature through Function2::comparison_op (encoding_invariance = true)',
+                 'dictionary entries are sorted and distinct (mapping.sort_unstable() after a HashSet, A-std-sort)'],
+    not_covered=['dictionary construction (fast_build_string_column)', 'LIKE / regex'])
 
 PROPS = {
     'C12': dict(level='other', units=['U13k', 'U21k'],
